@@ -438,6 +438,33 @@ func preservesPeerID(c *Ctx, fn *ssa.Function) (bool, string) {
 }
 
 func c03ExpectedID(c *Ctx) {
+	// every sync client handed out for a publisher was built by that call, for the publisher given to it (a client
+	// taken from a cache keyed by anything less than the publisher ID keeps the identity of an earlier caller, and
+	// the head is then compared with the wrong expected signer)
+	if ns := c.Func(ipnisyncPkg, "Sync.NewSyncer"); ns != nil {
+		nRet := 0
+		for _, b := range ns.SSA.Blocks {
+			ret, ok := b.Instrs[len(b.Instrs)-1].(*ssa.Return)
+			if !ok || len(ret.Results) != 2 || c.RetX(ret, 1).Op != "nil" {
+				continue
+			}
+			nRet++
+			fresh := true
+			what := ""
+			for _, l := range c.Leaves(c.RetX(ret, 0), ret) {
+				if l.Op != "complit" {
+					fresh = false
+					what = abbreviate(l.String())
+				}
+			}
+			c.Check(fresh, "C03.V4-expected-id-present", ns.Name+" › client built by this call", ret.Pos(), "the returned sync client is a literal constructed in this call", "the returned sync client is not constructed by this call ("+what+"): it can carry the expected publisher ID of an earlier caller")
+		}
+		if nRet == 0 {
+			c.Unk("C03.V4-expected-id-present", ns.Name+" › success return", ns.SSA.Pos(), "no success return found")
+		}
+	} else {
+		c.Unk("C03.V4-expected-id-present", "ipnisync.(*Sync).NewSyncer", token.NoPos, "not found")
+	}
 	// V4.1: the entry test
 	var entry *ssa.Function
 	for _, f := range c.Funcs(dagsyncPkg) {
